@@ -57,16 +57,16 @@ type fileRec struct {
 	DgErr   string `json:"dg_err,omitempty"`
 	Sha256  string `json:"sha256,omitempty"`
 	Sha1    string `json:"sha1,omitempty"`
-	Patched string `json:"patched,omitempty"`   // cab: CabinetDigest.Patched ; xap: ""
-	PStart  int64  `json:"pstart"`              // xap: PatchStart
-	PLen    int64  `json:"plen"`                // xap: PatchLen
-	ExtSt   int    `json:"ext_st"`              // what the verifier's parser finds: 0 signature, 1 not signed, 2 error, 9 panic
-	Sig     string `json:"sig,omitempty"`       // the embedded blob as the real parser returns it (cab) / spec split (xap)
-	VfSt    int    `json:"vf_st"`               // real verifier: 0 accepted, 1 not signed, 2 structural error, 3 blob rejected, 4 digest mismatch, 9 panic
+	Patched string `json:"patched,omitempty"` // cab: CabinetDigest.Patched ; xap: ""
+	PStart  int64  `json:"pstart"`            // xap: PatchStart
+	PLen    int64  `json:"plen"`              // xap: PatchLen
+	ExtSt   int    `json:"ext_st"`            // what the verifier's parser finds: 0 signature, 1 not signed, 2 error, 9 panic
+	Sig     string `json:"sig,omitempty"`     // the embedded blob as the real parser returns it (cab) / spec split (xap)
+	VfSt    int    `json:"vf_st"`             // real verifier: 0 accepted, 1 not signed, 2 structural error, 3 blob rejected, 4 digest mismatch, 9 panic
 	VfErr   string `json:"vf_err,omitempty"`
 	VfHash  string `json:"vf_hash,omitempty"`
-	Signed  int    `json:"signed"`              // Signer.IsSigned: 1 true, 0 false, 2 error
-	Pay     string `json:"pay,omitempty"`       // independent reader's payload (text), "" when unreadable
+	Signed  int    `json:"signed"`        // Signer.IsSigned: 1 true, 0 false, 2 error
+	Pay     string `json:"pay,omitempty"` // independent reader's payload (text), "" when unreadable
 	PayErr  string `json:"pay_err,omitempty"`
 }
 
@@ -270,11 +270,17 @@ func (d *drv) classify(format string, err error, pan bool) (int, string) {
 
 // xapDigest: zipslicer.ZipToTar piped into signxap.DigestXapTar, as zipbased.Transform + signers/xap.sign do.
 func (d *drv) xapDigest(fh *os.File, h crypto.Hash) (*signxap.XapDigest, error) {
+	// a private handle per run: ZipToTar seeks on it from its own goroutine
+	f2, err := os.Open(fh.Name())
+	if err != nil {
+		panic(err)
+	}
+	defer f2.Close()
 	r, w := io.Pipe()
-	go func() { _ = w.CloseWithError(zipslicer.ZipToTar(fh, w)) }()
-	dg, err := signxap.DigestXapTar(r, h, false)
-	r.Close()
-	return dg, err
+	done := make(chan struct{})
+	go func() { _ = w.CloseWithError(zipslicer.ZipToTar(f2, w)); close(done) }()
+	defer func() { r.Close(); <-done }()
+	return signxap.DigestXapTar(r, h, false)
 }
 
 // ---------------------------------------------------------------- signing steps
@@ -413,9 +419,6 @@ func (d *drv) embed(in *fileRec, f []byte, mode string, blob []byte, hname strin
 		}
 		var res []byte
 		err, pan := guard(func() (e error) { res, e = mod.Sign(stream, d.cert, opts); return })
-		if c, ok := stream.(io.Closer); ok {
-			c.Close()
-		}
 		if err != nil {
 			return finish(err, pan)
 		}
@@ -433,6 +436,12 @@ func (d *drv) embed(in *fileRec, f []byte, mode string, blob []byte, hname strin
 		if in.Fmt == "cab" {
 			if cab, e := cabfile.Parse(bytes.NewReader(out)); e == nil {
 				blob = cab.Signature
+			} else if p, e := binpatch.Load(res); e == nil && len(p.Blobs) > 0 {
+				// the output does not parse (malformed input layouts): take the blob from the patch set itself
+				blob = p.Blobs[len(p.Blobs)-1]
+				if dg, e := cabfile.Digest(bytes.NewReader(f), h); e == nil && len(p.Blobs) == 1 && len(blob) >= len(dg.Patched) {
+					blob = blob[len(dg.Patched):]
+				}
 			}
 		} else if _, b, signed, e := xapSplit(out); e == nil && signed {
 			blob = b
@@ -624,10 +633,10 @@ func (d *drv) xapInputs(n int) []input {
 		z.Zip64, z.LocOffDelta = true, int64(r.Pick(100000, 1<<40))
 		add("bad-zip64-locoff", writeZip(z))
 		z = randZip(r)
-		z.Zip64, z.LocOffDelta = true, -(1 << 62) * 2
+		z.Zip64, z.LocOffDelta = true, -(1<<62)*2
 		add("bad-zip64-locneg", writeZip(z))
 		z = randZip(r)
-		z.Zip64, z.CDOffDelta = true, -(1 << 62) * 2
+		z.Zip64, z.CDOffDelta = true, -(1<<62)*2
 		add("bad-zip64-cdneg", writeZip(z))
 		z = randZip(r)
 		z.CDOffDelta = int64(r.Pick(100000, 1<<30))
